@@ -59,61 +59,51 @@ Fixpoint alook (m : list (N * N)) (k : N) : option N :=
   match m with [] => None | (a, b) :: t => if a =? k then Some b else alook t k end.
 
 (* THE VALIDATOR: `m` is exactly the immediate-dominator relation of (es, r) *)
-Definition idom_check (vs : list N) (es : list (N * N)) (r : N) (m : list (N * N)) : bool :=
-  let vv := verts vs es r in
-  let t := mk_tab vs es r in
-  tab_ok vs es r
-  && forallb (fun p => memb (fst p) vv && memb (snd p) vv) m
+Definition idom_check_t (t : domtab) (vv : list N) (m : list (N * N)) : bool :=
+  forallb (fun p => memb (fst p) vv && memb (snd p) vv) m
   && forallb (fun v => forallb (fun d =>
         Bool.eqb (match alook m v with Some d' => d' =? d | None => false end) (idom_b t vv d v)) vv) vv.
+Definition idom_check (vs : list N) (es : list (N * N)) (r : N) (m : list (N * N)) : bool :=
+  tab_ok vs es r && idom_check_t (mk_tab vs es r) (verts vs es r) m.
 
 (* ------------------------------------------------------------------ the other reflections *)
 Definition set_of (f : N -> bool) (vv : list N) : list N := filter f vv.
 
 (* dominator sets: exactly the reachable vertices are keys *)
-Definition dominators_ok (vs : list N) (es : list (N * N)) (r : N) (m : list (N * list N)) : bool :=
-  let vv := verts vs es r in
-  let t := mk_tab vs es r in
-  tab_ok vs es r
-  && seteq_b (map fst m) (t_all t) && nodup_b (map fst m)
+Definition dominators_ok (t : domtab) (vv : list N) (m : list (N * list N)) : bool :=
+  seteq_b (map fst m) (t_all t) && nodup_b (map fst m)
   && forallb (fun p => seteq_b (snd p) (set_of (fun d => dom_b t d (fst p)) vv) && nodup_b (snd p)) m.
 
 Definition in_df_b (t : domtab) (es : list (N * N)) (x y : N) : bool :=
   existsb (fun p => dom_b t x p) (opred es y) && negb (sdom_b t x y).
 (* frontiers: every vertex of the graph may be a key; an unreachable vertex has an empty frontier *)
-Definition df_ok (vs : list N) (es : list (N * N)) (r : N) (m : list (N * list N)) : bool :=
-  let vv := verts vs es r in
-  let t := mk_tab vs es r in
-  tab_ok vs es r
-  && subset_b (t_all t) (map fst m) && subset_b (map fst m) vv && nodup_b (map fst m)
+Definition df_ok (t : domtab) (vv : list N) (es : list (N * N)) (m : list (N * list N)) : bool :=
+  subset_b (t_all t) (map fst m) && subset_b (map fst m) vv && nodup_b (map fst m)
   && forallb (fun p => seteq_b (snd p) (set_of (fun y => in_df_b t es (fst p) y) vv) && nodup_b (snd p)) m.
 
 (* dominator tree given as (vertices, edges) *)
-Definition domtree_ok (vs : list N) (es : list (N * N)) (r : N) (tv : list N) (te : list (N * N)) : bool :=
-  let t := mk_tab vs es r in
+Definition domtree_ok (t : domtab) (vv : list N) (tv : list N) (te : list (N * N)) : bool :=
   seteq_b tv (t_all t) && nodup_b tv
-  && idom_check vs es r (map (fun e => (snd e, fst e)) te)
+  && idom_check_t t vv (map (fun e => (snd e, fst e)) te)
   && nodup_b (map snd te).
 
 Definition back_edge_b (t : domtab) (e : N * N) : bool := dom_b t (snd e) (fst e).
 (* natural loop of header h: h + reachable vertices that reach a back-edge source avoiding h *)
 Definition rev_edges (es : list (N * N)) : list (N * N) := map (fun e => (snd e, fst e)) es.
-Definition loop_of (vs : list N) (es : list (N * N)) (r : N) (t : domtab) (h : N) : list N :=
+Definition loop_of (es : list (N * N)) (t : domtab) (h : N) : list N :=
   let tails := map fst (filter (fun e => (snd e =? h) && back_edge_b t e) es) in
   let res := filter (fun e => reach_b t (fst e) && reach_b t (snd e)) es in
   fold_left (fun acc tl => fold_left add_new (cl (rev_edges res) (N.eqb h) tl) acc) tails [h].
-Definition loops_closed (vs : list N) (es : list (N * N)) (r : N) (t : domtab) (h : N) : bool :=
+Definition loops_closed (es : list (N * N)) (t : domtab) (h : N) : bool :=
   let tails := map fst (filter (fun e => (snd e =? h) && back_edge_b t e) es) in
   let res := filter (fun e => reach_b t (fst e) && reach_b t (snd e)) es in
   forallb (fun tl => cl_ok (rev_edges res) (N.eqb h) tl) tails.
 Definition headers (es : list (N * N)) (t : domtab) : list N :=
   fold_left add_new (map snd (filter (back_edge_b t) es)) [].
-Definition loops_ok (vs : list N) (es : list (N * N)) (r : N) (ls : list (N * list N)) : bool :=
-  let t := mk_tab vs es r in
-  tab_ok vs es r
-  && seteq_b (map fst ls) (headers es t) && nodup_b (map fst ls)
-  && forallb (fun l => loops_closed vs es r t (fst l)
-                       && seteq_b (snd l) (loop_of vs es r t (fst l)) && nodup_b (snd l)) ls.
+Definition loops_ok (t : domtab) (es : list (N * N)) (ls : list (N * list N)) : bool :=
+  seteq_b (map fst ls) (headers es t) && nodup_b (map fst ls)
+  && forallb (fun l => loops_closed es t (fst l)
+                       && seteq_b (snd l) (loop_of es t (fst l)) && nodup_b (snd l)) ls.
 (* nesting relation between loops: edge (outer header, inner header) *)
 Definition looptree_ok (ls : list (N * list N)) (tv : list (N * list N)) (te : list (N * N)) : bool :=
   seteq_b (map fst tv) (map fst ls) && Nat.eqb (length tv) (length ls)
@@ -133,9 +123,7 @@ Definition has_cycle_b (es : list (N * N)) (among : list N) : option bool :=
                           | Some x, Some y => Some (x || y) | _, _ => None end) among (Some false).
 
 (* reducibility, definition 1 (Hecht-Ullman): reachable subgraph minus dominance back edges is acyclic *)
-Definition reducible_fe_b (vs : list N) (es : list (N * N)) (r : N) : option bool :=
-  let t := mk_tab vs es r in
-  if negb (tab_ok vs es r) then None else
+Definition reducible_fe_b (t : domtab) (es : list (N * N)) : option bool :=
   let fe := filter (fun e => reach_b t (fst e) && negb (back_edge_b t e)) es in
   match has_cycle_b fe (t_all t) with Some c => Some (negb c) | None => None end.
 (* reducibility, definition 2: T1 (delete a self loop) / T2 (merge a vertex with a unique predecessor
@@ -156,8 +144,7 @@ Definition t1t2_step (r : N) (st : list N * list (N * N)) : list N * list (N * N
     end
   end.
 Fixpoint iter {A} (n : nat) (f : A -> A) (a : A) : A := match n with O => a | S k => iter k f (f a) end.
-Definition reducible_t1t2_b (vs : list N) (es : list (N * N)) (r : N) : bool :=
-  let t := mk_tab vs es r in
+Definition reducible_t1t2_b (t : domtab) (es : list (N * N)) (r : N) : bool :=
   let rv := t_all t in
   let res := filter (fun e => reach_b t (fst e)) es in
   match iter (S (length rv)) (t1t2_step r) (rv, res) with
@@ -206,19 +193,15 @@ Definition pre_order_ok (vs : list N) (es : list (N * N)) (r : N) (l : list N) :
   end.
 (* post-order: a permutation of the reachable set, root last, and an edge a->b whose target finishes
    after its source closes a cycle (b reaches a) *)
-Definition post_order_ok (vs : list N) (es : list (N * N)) (r : N) (l : list N) : bool :=
-  let t := mk_tab vs es r in
-  cl_ok es (fun _ => false) r
-  && seteq_b l (t_all t) && nodup_b l
+Definition post_order_ok (t : domtab) (es : list (N * N)) (r : N) (l : list N) : bool :=
+  seteq_b l (t_all t) && nodup_b l
   && match rev l with x :: _ => x =? r | [] => false end
   && forallb (fun e => negb (memb (fst e) l) || before l (snd e) (fst e)
                        || (cl_ok es (fun _ => false) (snd e) && memb (fst e) (cl es (fun _ => false) (snd e)))) es.
 
 (* a spanning tree of the reachable set made of graph edges, every non-root vertex with one parent *)
-Definition dfs_tree_ok (vs : list N) (es : list (N * N)) (r : N) (tv : list N) (te : list (N * N)) : bool :=
-  let t := mk_tab vs es r in
-  cl_ok es (fun _ => false) r
-  && seteq_b tv (t_all t) && nodup_b tv
+Definition dfs_tree_ok (t : domtab) (es : list (N * N)) (r : N) (tv : list N) (te : list (N * N)) : bool :=
+  seteq_b tv (t_all t) && nodup_b tv
   && forallb (fun e => ememb e es) te
   && forallb (fun v => if v =? r then match opred te v with [] => true | _ => false end
                        else match opred te v with [_] => true | _ => false end) tv
@@ -226,9 +209,8 @@ Definition dfs_tree_ok (vs : list N) (es : list (N * N)) (r : N) (tv : list N) (
 
 (* compute_acyclic: a subgraph with the same vertices and the same reachable set, without a cycle
    reachable from the start, where every dropped edge closed a cycle *)
-Definition acyclic_graph_ok (vs : list N) (es : list (N * N)) (r : N) (tv : list N) (te : list (N * N)) : bool :=
-  let t := mk_tab vs es r in
-  cl_ok es (fun _ => false) r && cl_ok te (fun _ => false) r
+Definition acyclic_graph_ok (t : domtab) (vs : list N) (es : list (N * N)) (r : N) (tv : list N) (te : list (N * N)) : bool :=
+  cl_ok te (fun _ => false) r
   && seteq_b tv vs && nodup_b tv
   && forallb (fun e => ememb e es) te
   && seteq_b (cl te (fun _ => false) r) (t_all t)
